@@ -123,6 +123,10 @@ Definition with_mode (m : meta) (mode : N) : meta :=
   {| m_mode := N.lor (N.ldiff (m_mode m) FILE_MODE_MASK) (N.land mode FILE_MODE_MASK);
      m_uid := m_uid m; m_gid := m_gid m |}.
 
+(* setMode: a user who is not a member of the node's group cannot set the set-group-ID bit (chmod(2)) *)
+Definition chmod_mode (m : meta) (u : user) (mode : N) : N :=
+  if negb (us_admin u) && negb (Z.eqb (m_gid m) (us_gid u)) then N.ldiff mode MODE_SETGID else mode.
+
 Definition with_owner (m : meta) (uid gid : Z) : meta :=
   {| m_mode := m_mode m;
      m_uid := if Z.eqb uid (-1) then m_uid m else uid;
@@ -191,8 +195,8 @@ Fixpoint search_loop (fuel : nat) (h : heap) (v : view) (slm : slmode) (vol pare
                 else ret (match v_os v with Windows => ENoSuchDir | Linux => ENotADirectory end)
             | Some (NSym link _) =>
                 let slcount' := S slcount in
-                if Nat.ltb slCountMax slcount' then ret ETooManySymlinks
-                else if last && slmode_eqb slm SlLstat then ret EFileExists
+                if last && slmode_eqb slm SlLstat then ret EFileExists
+                else if Nat.ltb slCountMax slcount' then ret ETooManySymlinks
                 else
                   let saved' := match saved with
                                 | None => if last && slmode_eqb slm SlStat then Some pi1 else None
@@ -651,7 +655,7 @@ Definition chmod (s : fsys) (v : view) (name : str) (mode : N) : fsys * res :=
            | Some (NSym _ _) | None => (s, RFail EOpNotPermitted)
            | Some n =>
                if set_mode_ok (node_meta n) (v_user v)
-               then (with_heap s (upd (f_heap s) c (set_meta n (with_mode (node_meta n) mode))), ROk)
+               then (with_heap s (upd (f_heap s) c (set_meta n (with_mode (node_meta n) (chmod_mode (node_meta n) (v_user v) mode)))), ROk)
                else (s, RFail EOpNotPermitted)
            end
   end.
